@@ -48,12 +48,15 @@ PROPERTY = "C09"
 
 L = 64
 DT = 0.01
+DT_NEAR = float(np.float32(0.01))
+NEAR_EQUAL_DT = False       # switched on per root (root["near_dt"])
 DEG = 15.0
 
 REC_SPECS = [
     dict(ns="noise1", ew="noise2", vt="noise3",
          meta={"file name(s)": ["st01_w0.n.mseed", "st01_w0.e.mseed", "st01_w0.z.mseed"],
-               "station": "ST01", "detrend": "linear", "split": 0.63}),
+               "station": "ST01", "detrend": "linear", "split": 0.63,
+               "coordinates": "ndarray:[12.5, -3.25, 101.0]"}),       # replaced by a numpy array in make_recordings
     dict(ns="two_sines+noise4", ew="noise5", vt="ramp+noise6",
          meta={"file name(s)": ["st01_w1.n.mseed", "st01_w1.e.mseed", "st01_w1.z.mseed"],
                "station": "ST01", "detrend": "linear", "split": 0.63}),
@@ -79,8 +82,8 @@ KINDS_ALL = ["fd:" + m for m in FD] + ["single", "rotdpp", "azimuthal", "diffuse
 WIDTHS = [0.0, 0.1, 0.5]
 FFT_REQUESTS = {"default": lambda: None, "nopad": lambda: {"n": None}, "n128": lambda: {"n": 128}}
 
-MR_QUICK = ["sample", "meta", "meta-nested"]
-MR_ALL = ["sample", "meta", "meta-nested", "sample-last", "orient"]
+MR_QUICK = ["sample", "meta", "meta-nested", "meta-array"]
+MR_ALL = ["sample", "meta", "meta-nested", "meta-array", "sample-last", "orient"]
 MS_FIELDS = ["width", "fcs", "azimuths", "fft_n"]
 
 DATA_PARTS = ("type", "frequency", "amplitude", "masks", "peaks", "azimuths")
@@ -122,10 +125,16 @@ def _sig(name):
 
 def make_recordings(nrec):
     recs = []
-    for spec in REC_SPECS[:nrec]:
-        recs.append(SeismicRecording3C(TimeSeries(_sig(spec["ns"]), DT), TimeSeries(_sig(spec["ew"]), DT),
-                                       TimeSeries(_sig(spec["vt"]), DT), degrees_from_north=DEG,
-                                       meta=copy.deepcopy(spec["meta"])))
+    for i, spec in enumerate(REC_SPECS[:nrec]):
+        meta = copy.deepcopy(spec["meta"])
+        if "coordinates" in meta:       # a mutable value that is neither list, dict nor tuple
+            meta["coordinates"] = np.array([12.5, -3.25, 101.0])
+        # the second recording's time step is the float32 rounding of 0.01 (what a SAC header gives):
+        # it differs from DT by ~2e-10 s, i.e. "equal" for every tolerance but not equal
+        dt = DT_NEAR if (i == 1 and NEAR_EQUAL_DT) else DT
+        recs.append(SeismicRecording3C(TimeSeries(_sig(spec["ns"]), dt), TimeSeries(_sig(spec["ew"]), dt),
+                                       TimeSeries(_sig(spec["vt"]), dt), degrees_from_north=DEG,
+                                       meta=meta))
     return recs
 
 
@@ -199,6 +208,8 @@ def apply_mr(recs, what):
         recs[0].meta["note"] = "edited after processing"
     elif what == "meta-nested":
         recs[0].meta["file name(s)"][0] = "renamed.n.mseed"
+    elif what == "meta-array":
+        recs[0].meta["coordinates"][0] = -999.0        # in-place edit of an array held in the meta
     elif what == "orient":
         recs[0].orient_sensor_to(75.0)
     else:
@@ -555,7 +566,7 @@ class System:
             return self.ref_cache[k]
         if _SERVER is not None:
             ans = _SERVER.request(dict(nrec=self.nrec, kind=op["kind"], w=op["w"], ms=list(ms), mr=list(mr),
-                                       n_used=n_used, fft=self.fft))
+                                       n_used=n_used, fft=self.fft, near_dt=NEAR_EQUAL_DT))
             ctx.count("transitions")
             ctx.count("fresh_reference_computed")
             ctx.count("fresh_reference_computed_in_pristine_process")
@@ -809,6 +820,11 @@ def roots(tier, seed):
                 add(nrec, fft, 2, KINDS_QUICK, WIDTHS, MR_QUICK, ["last"])
         for fft in FFT_REQUESTS:
             add(2, fft, 2, ["psd_raw"], WIDTHS, MR_QUICK, ["last"])
+        n0 = len(out)
+        add(2, "n128", 1, ["fd:geometric_mean", "single", "rotdpp", "azimuthal", "diffuse@keeping_smallest_time_step"],
+            [0.1], [], ["last"])
+        for r in out[n0:]:
+            r["near_dt"] = True
         return out
     # thorough: depth 3 on the unpadded request (every kind, every width), depth 3 with the
     # padded requests on two recordings, depth 2 for everything else
@@ -821,6 +837,12 @@ def roots(tier, seed):
     for nrec in (1, 2, 3):
         for fft in FFT_REQUESTS:
             add(nrec, fft, 3, ["psd_raw"], WIDTHS, MR_QUICK, ["last"])
+    n0 = len(out)
+    for nrec in (2, 3):
+        add(nrec, "n128", 2, ["fd:geometric_mean", "fd:squared_average@keeping_majority_time_step", "single", "rotdpp",
+                              "azimuthal", "diffuse@keeping_smallest_time_step"], [0.1, 0.5], MR_QUICK, ["last"])
+    for r in out[n0:]:
+        r["near_dt"] = True
     return out
 
 
@@ -830,6 +852,8 @@ _REF_CACHE = {}
 
 def _pristine_reference(req):
     """Runs in a fresh child of the pristine server: one call, no history."""
+    global NEAR_EQUAL_DT
+    NEAR_EQUAL_DT = bool(req.get("near_dt"))
     recs = make_recordings(req["nrec"])
     for m in req["mr"]:
         apply_mr(recs, m)
@@ -858,6 +882,18 @@ def warm():
 
 
 def run_root(root, ctx, tier):
+    global NEAR_EQUAL_DT
+    NEAR_EQUAL_DT = bool(root.get("near_dt"))
+    _REF_CACHE.clear() if NEAR_EQUAL_DT else None
+    try:
+        _run_root(root, ctx, tier)
+    finally:
+        if NEAR_EQUAL_DT:
+            _REF_CACHE.clear()
+        NEAR_EQUAL_DT = False
+
+
+def _run_root(root, ctx, tier):
     _selftest(ctx, root)
     sysm = System(root, ctx)
     explorer.bfs(sysm, root, root["depth"], ctx, key_prefix="C09",
